@@ -2,6 +2,8 @@
 //! ndjson traces that TLC validates against the specifications in /verif/spec.
 pub mod util;
 mod window;
+pub mod conn;
+mod rot;
 mod codec;
 mod beacon;
 mod keys;
@@ -18,6 +20,8 @@ fn dispatch(args: &[String]) -> i32 {
         ("ping", _) => serde_json::json!({"pong": true}),
         ("window", "sched") => window::run_sched(a(3), a(4)),
         ("window", "random") => window::run_random(n(3), n(4), a(5)),
+        ("rot", "sched") => rot::run_sched(a(3), a(4), a(5) == "each"),
+        ("rot", "random") => rot::run_random(n(3), n(4) as i64, a(5)),
         ("codec", _) => codec::run(&args[2..]),
         ("beacon", _) => beacon::run(&args[2..]),
         ("keys", _) => keys::run(&args[2..]),
